@@ -188,11 +188,13 @@ Definition as_bytes (v : mval) : dres bytes :=
   | _ => DErr
   end.
 
-(* string *)
+(* string: as []byte (go-codec decodes a string through DecodeBytes, which also accepts an
+   array of small integers — the same leniency, not modelled) *)
 Definition as_string (v : mval) : dres bytes :=
   match v with
   | MBin b | MStr b => DOk b
   | MNil => DOk []
+  | MArr _ => DUnmod
   | _ => DErr
   end.
 
